@@ -360,8 +360,10 @@ impl SharedRateLimiter {
                 // Try again after waiting
                 let mut state = self.state.lock().unwrap();
                 match state.try_acquire() {
-                    Ok(additional_wait) => Ok(wait_duration + additional_wait),
-                    Err(_) => Err(()), // Timeout exceeded
+                    // A permit was actually taken
+                    Ok(Duration::ZERO) => Ok(wait_duration),
+                    // Still no permit after waiting (other waiters took them), or timeout exceeded
+                    Ok(_) | Err(_) => Err(()),
                 }
             }
             Err(_) => {
